@@ -298,7 +298,7 @@ class Session:
         """Vacuity guard: hypotheses must be satisfiable (expected sat)."""
         return self.check_sat(name, list(hyps), kind="reachability", **kw)
 
-    def cross_check(self, max_queries=40, timeout_s=30):
+    def cross_check(self, max_queries=25, timeout_s=20):
         """Re-decide dumped obligations with cvc5 (thorough tier).  Returns #disagreements."""
         try:
             import cvc5  # noqa
